@@ -105,10 +105,10 @@ Proof.
 Qed.
 
 (* ---- the step lemma ---- *)
-Lemma step_sim g b s o : R g b s -> op_ok g s o = true ->
+Lemma step_sim_core g k b s o : R g b s -> (zn (cap b) <= k)%Z -> op_ok g k s o = true ->
   snd (step b o) = snd (sstep s o) /\ R (next_g g o) (fst (step b o)) (fst (sstep s o)).
 Proof.
-  intros HR Hok. pose proof HR as (HI & Hl & Hp & Hk).
+  intros HR Hcap Hok. pose proof HR as (HI & Hl & Hp & Hk).
   assert (Hlen : length (un s) = blen b) by (apply (R_len g), HR).
   unfold step. destruct o; cbn [step_gen sstep next_g].
   - (* Write *)
@@ -186,10 +186,17 @@ Proof.
   - (* Reset *)
     split; [reflexivity|]. apply reset_sim, HI.
   - (* Grow *)
-    destruct (n <? 0)%Z; cbn [fst snd].
+    cbn [op_ok] in Hok.
+    destruct (n <? 0)%Z eqn:En; cbn [fst snd].
     + split; [reflexivity|exact HR].
-    + destruct (grow b (Z.to_nat n)) as [b1 m] eqn:Eg. cbn [fst snd]. split; [reflexivity|].
-      apply (grow_sim b s (Z.to_nat n) b1 m); assumption.
+    + cbn [orb] in Hok. apply Z.ltb_ge in En. destruct (max_alloc <? n)%Z eqn:Em.
+      * apply Z.ltb_lt in Em. apply Z.leb_le in Hok.
+        rewrite (too_large_true (reset_if_empty b) n) by (try rewrite cap_reset_if_empty; lia).
+        cbn [fst snd]. split; [reflexivity|]. apply reset_if_empty_sim; assumption.
+      * apply Z.ltb_ge in Em. apply Z.leb_le in Hok.
+        rewrite (too_large_false (reset_if_empty b) n) by (try rewrite cap_reset_if_empty; lia).
+        destruct (grow b (Z.to_nat n)) as [b1 m] eqn:Eg. cbn [fst snd]. split; [reflexivity|].
+        apply (grow_sim b s (Z.to_nat n) b1 m); assumption.
   - (* ReadFrom *)
     cbn [op_ok] in Hok.
     destruct (read_from_sim script (set_last b 0%Z) (un s) 0%Z HI Hl eq_refl Hok) as (A & B & C & D & E).
@@ -226,4 +233,61 @@ Proof.
     rewrite Hb. destruct (rewrite_at (l ++ un s) pos p) as [sto|] eqn:Erw; cbn [fst snd].
     + split; [reflexivity|]. apply (rewrite_sim g b s l pos p sto HR Epre Erw).
     + split; [reflexivity|exact HR].
+Qed.
+
+(* the capacity stays below the bound the history implies *)
+Lemma gfw_k b n b1 m k : (zn (cap b) <= k)%Z -> grow_for_write (set_last b 0%Z) n = (b1, m) -> (zn (cap b1) <= grow_k k (zn n))%Z.
+Proof.
+  intros Hk Hg. pose proof (grow_for_write_cap _ _ _ _ Hg) as H. change (cap (set_last b 0%Z)) with (cap b) in H.
+  pose proof (grow_k_mono _ _ (zn n) Hk). lia.
+Qed.
+
+Ltac cap_simple Hcap :=
+  repeat match goal with |- context [if ?c then _ else _] => destruct c end;
+  cbn [fst cap reset set_off set_last set_bytes]; try exact Hcap.
+
+Lemma cap_step g k b s o : (zn (cap b) <= k)%Z -> op_ok g k s o = true -> (zn (cap (fst (step b o))) <= next_k k o)%Z.
+Proof.
+  intros Hcap Hok. unfold step. destruct o; cbn [step_gen next_k].
+  - destruct (grow_for_write (set_last b 0%Z) (length p)) as [b1 m] eqn:Eg. cbn [fst]. apply (gfw_k b _ b1 m k Hcap Eg).
+  - destruct (grow_for_write (set_last b 0%Z) (length p)) as [b1 m] eqn:Eg. cbn [fst]. apply (gfw_k b _ b1 m k Hcap Eg).
+  - destruct (grow_for_write (set_last b 0%Z) 1) as [b1 m] eqn:Eg. cbn [fst]. apply (gfw_k b 1 b1 m k Hcap Eg).
+  - unfold write_rune. destruct (rune_is_byte r).
+    + destruct (grow_for_write (set_last b 0%Z) 1) as [b1 m] eqn:Eg. cbn [fst].
+      pose proof (gfw_k b 1 b1 m k Hcap Eg) as H. unfold write_at, set_bytes; cbn [cap]. unfold grow_k, zn in *. lia.
+    + destruct (grow_for_write (set_last b 0%Z) 4) as [b1 m] eqn:Eg. cbn [fst]. apply (gfw_k b 4 b1 m k Hcap Eg).
+  - cap_simple Hcap.
+  - cap_simple Hcap.
+  - destruct (decode_rune (live b)) as [r n]. cap_simple Hcap.
+  - cap_simple Hcap.
+  - cap_simple Hcap.
+  - cap_simple Hcap.
+  - cap_simple Hcap.
+  - cap_simple Hcap.
+  - (* Grow *)
+    cbn [op_ok] in Hok. destruct (n <? 0)%Z eqn:En; cbn [orb fst]; [exact Hcap|].
+    cbn [orb] in Hok. apply Z.ltb_ge in En. destruct (max_alloc <? n)%Z eqn:Em.
+    + apply Z.ltb_lt in Em. apply Z.leb_le in Hok.
+      rewrite (too_large_true (reset_if_empty b) n) by (try rewrite cap_reset_if_empty; lia).
+      cbn [fst]. rewrite cap_reset_if_empty. exact Hcap.
+    + apply Z.ltb_ge in Em. apply Z.leb_le in Hok.
+      rewrite (too_large_false (reset_if_empty b) n) by (try rewrite cap_reset_if_empty; lia).
+      destruct (grow b (Z.to_nat n)) as [b1 m] eqn:Eg. cbn [fst]. unfold set_bytes; cbn [cap].
+      pose proof (grow_cap _ _ _ _ Eg) as H. pose proof (grow_k_mono _ _ (zn (Z.to_nat n)) Hcap) as H2.
+      unfold zn in *. rewrite Z2Nat.id in * by lia. lia.
+  - (* ReadFrom *) apply (read_from_cap script (set_last b 0%Z) 0%Z k). exact Hcap.
+  - cap_simple Hcap.
+  - exact Hcap.
+  - exact Hcap.
+  - exact Hcap.
+  - exact Hcap.
+  - destruct (rewrite_at (bytes b) pos p); cbn [fst cap set_bytes]; exact Hcap.
+Qed.
+
+Lemma step_sim g k b s o : R g b s -> (zn (cap b) <= k)%Z -> op_ok g k s o = true ->
+  snd (step b o) = snd (sstep s o) /\ R (next_g g o) (fst (step b o)) (fst (sstep s o)) /\
+  (zn (cap (fst (step b o))) <= next_k k o)%Z.
+Proof.
+  intros HR Hcap Hok. destruct (step_sim_core g k b s o HR Hcap Hok) as [A B].
+  split; [exact A|split; [exact B|apply (cap_step g k b s o Hcap Hok)]].
 Qed.
